@@ -295,6 +295,7 @@ class _Monitor:
         self.busy = 0
         self.nwrapped = 0
         self.names = []
+        self.self_active = set()  # ids of objects whose array attributes an enclosing frame already tracks
         self.aliases = weakref.WeakKeyDictionary()  # object -> {attr: (weakref(array) | None, "Class.__init__:param")}
 
 
@@ -513,9 +514,12 @@ def _enter(qual, kind, names, varname, args, kwargs, name):
             new_kwargs[k] = nv
             changed |= ch
             walk(nv, k, frame.items)
-    if kind == "method" and name != "__init__" and args:
+    if kind == "method" and name != "__init__" and args and id(args[0]) not in M.self_active:
+        # arrays of `self` are digested by the outermost method call on that object only (nested calls on the
+        # same object are covered by it; digesting them at every level is quadratic for e.g. cubic interpolation)
         frame.self_obj = args[0]
         frame.self_items = _self_arrays(args[0])
+        M.self_active.add(id(args[0]))
     return frame, (tuple(new_args), new_kwargs) if changed else None
 
 
@@ -547,7 +551,11 @@ def _register_ctor_aliases(frame, obj, qual):
 def _exit(frame, exc, result_obj=None, is_init=False):
     sink = M.sink
     frame.closed = True
+    if frame.self_obj is not None:
+        M.self_active.discard(id(frame.self_obj))
     nfail = 0
+    if exc is not None:
+        sink.count("monitored-calls-left-by-exception")
     for it in frame.items:
         d = _diff(it)
         if d is not None:
